@@ -179,7 +179,7 @@ theorem proper_anc_front {s : St β} {c : Nat} {cm : Commit π} {fr : List Nat} 
 theorem finish_attr {pl : Plug π β} {head : Nat} {s s' : St β} {c : Nat} {cm : Commit π} {fr : List Nat}
     {rp0 : Repo β} (hT : h.Topo) (a : Attr h rp0 head s) (w : WF h s) (sm : Sem h s.rp)
     (hcl : classify s.rp c = none) (hcm : h.commits[c]? = some cm) (hQ : FrontQ h s cm.parents.reverse fr)
-    (hf : finish pl head s c cm fr = .ok s') (w' : WF h s') (sm' : Sem h s'.rp) (g : Grow s.rp s'.rp)
+    {rel : List Nat} (hf : finish pl head rel s c cm fr = .ok s') (w' : WF h s') (sm' : Sem h s'.rp) (g : Grow s.rp s'.rp)
     (hV : Anc h c head) :
     Attr h rp0 head s' := by
   obtain ⟨rp, br⟩ := s
@@ -277,7 +277,7 @@ theorem finish_attr {pl : Plug π β} {head : Nat} {s s' : St β} {c : Nat} {cm 
   | build bpar new pb pbs bumps bn na helig hfn _ _ hreason _ _ =>
     have hs := findNew_spec w.rcPar hfn
     obtain ⟨e, he, _, hk, _, hnewiff⟩ := hs.ext
-    let rc : RC := { commit := c, parents := fr, explicit := cm.isMatch, bns := buildNums cm (c == head) }
+    let rc : RC := { commit := c, parents := fr, explicit := cm.isMatch, bns := buildNums cm (c == head), time := cm.time }
     let b : RB β := { iid := rp.rcs.length, rcommit := some rp.rcs.length, parents := pb,
                       rcommits := new ++ [rp.rcs.length], bumps := bumps, bn := bn }
     let s1 : St β := St.addBuild ⟨rp, br⟩ rc bn bpar new pb bumps na
@@ -409,7 +409,7 @@ theorem attr_hyps (hT : h.Topo) (pl : Plug π β) (head : Nat) (rp0 : Repo β) :
   Qcls := fun hP hQ _ hc => (sem_hyps h pl head).Qcls hP.1 hQ trivial hc
   Vstep := fun hV hcm hp => Anc.trans (.step hcm hp (.refl _)) hV
   Hfin := by
-    intro s c cm fr s' hP hV hcl hcm hQ hf
+    intro rel s c cm fr s' hP hV hcl hcm hQ hf
     obtain ⟨⟨w', sm'⟩, g⟩ := (sem_hyps h pl head).Hfin hP.1 trivial hcl hcm hQ hf
     exact ⟨⟨⟨w', sm'⟩, finish_attr hT hP.2 hP.1.1 hP.1.2 hcl hcm hQ hf w' sm' g hV⟩, g⟩
 
